@@ -5,6 +5,7 @@ import (
 
 	"github.com/aperturerobotics/util/broadcast"
 	"github.com/aperturerobotics/util/linkedlist"
+	"github.com/aperturerobotics/util/verifhook"
 )
 
 // ConcurrentQueue is a pool of goroutines processing a stream of jobs.
@@ -158,6 +159,7 @@ func (s *ConcurrentQueue) executeJob(job func()) {
 			job()
 		}
 
+		verifhook.Point(verifhook.ConcWorkerLock, s)
 		var jobOk bool
 		s.bcast.HoldLock(func(broadcast func(), getWaitCh func() <-chan struct{}) {
 			job, jobOk = s.jobQueue.Pop()
